@@ -441,6 +441,12 @@ class Multiplexer(wiring.Component):
                     chunk = Multiplexer._Shadow.Chunk(self, chunk_offset, chunk_registers)
                     self._chunks[chunk_offset] = chunk
             else:
+                if self._size > max(reg_range.stop for reg_range in self._ranges):
+                    # Every address bit is already used for decoding; doubling the size again
+                    # cannot separate the registers that still share a chunk.
+                    raise ValueError(f"Shadow register {self.name!r} cannot be balanced: more than "
+                                     f"{self.overlaps + 1} CSR registers that are not aligned to "
+                                     f"their size would share a chunk regardless of its size")
                 self._size *= 2
                 self.prepare()
 
